@@ -412,6 +412,34 @@ def run_largebatch(rec, sh):
                                 dict(start=p, alphabet=alpha))
         _check_call(rec, "delete", ersatz.delete, X, Xc, [], True, numpy.concatenate([codes[:, :1], codes[:, 4:]], axis=1),
                     dict(fn="delete", A=A, L=L, B=B, start=1, end=4), (1, 4), {})
+    # motif batches: all-tensor motif lists that mix a shared motif (batch 1) with one motif per example, adjacent (spacing 0) and spaced;
+    # a motif batch that is neither 1 nor the number of sequences (e.g. 2 motifs for 4 or 6 sequences) is rejected, never tiled
+    for B in (4, 6):
+        L = 7
+        codes = rs.randint(0, A, (B, L))
+        X = ohe(codes, A, torch.float32)
+        Xc = X.clone()
+        sh_rows = rs.randint(0, A, (1, 2))
+        per_rows = rs.randint(0, A, (B, 1))
+        per2_rows = rs.randint(0, A, (B, 2))
+        t_sh = _motif_forms(sh_rows, A, "shared", B)
+        t_per = _motif_forms(per_rows, A, "per", B)
+        t_per2 = _motif_forms(per2_rows, A, "per", B)
+        for sp in (0, [0], 1, [2]):
+            g = sp if isinstance(sp, int) else sp[0]
+            for p in (0, 1, L - 3 - g):
+                for order, mots, rows in (("shared,per", [t_sh, t_per], [sh_rows, per_rows]), ("per,shared", [t_per2, t_sh], [per2_rows, sh_rows])):
+                    w0 = rows[0].shape[1]
+                    valid = p >= 0 and p + w0 + g + rows[1].shape[1] <= L
+                    exp = _expect_sub(_expect_sub(codes, rows[0], p), rows[1], p + w0 + g) if valid else None
+                    case = dict(fn="multisubstitute", A=A, L=L, B=B, motifs="all tensors: " + order, spacing=sp, start=p)
+                    _check_call(rec, "multisubstitute", ersatz.multisubstitute, X, Xc, [], valid, exp, case, (mots, sp), dict(start=p, alphabet=alpha))
+        for k in (2, 3, B - 1, B + 1):
+            if k in (1, B):
+                continue
+            bad = ohe(rs.randint(0, A, (k, 2)), A, torch.float32)
+            for fn_, nm in ((ersatz.substitute, "substitute"), (ersatz.insert, "insert")):
+                _check_call(rec, nm, fn_, X, Xc, [], False, None, dict(fn=nm, A=A, L=L, B=B, motif_batch=k, start=1), (bad,), dict(start=1, alphabet=alpha))
     rec.sample(dict(fn="largebatch", A=A, B=[255, 256, 257, 300, 1000]))
 
 
